@@ -51,3 +51,5 @@ PROP = {'title': 'Ranges and iterators enumerate exactly their documented sequen
                  'audit: for input-category iterators (int_iterator, enum_::iterator, spiral_iterator) every position is reached by its '
                  'own walk from a fresh range.begin(); no iterator is used after a copy of it was incremented; saved copies are re-used only '
                  'for forward or stronger categories; moved-from iterators are never inspected']}
+
+PROP['rule'] += " moore/neumann neighbours of unsigned positions with coordinates in {0,1,2,max-2,max-1,max}^2 in the type's own modular arithmetic."
